@@ -18,6 +18,7 @@ RULE = ("The finite set of unit pairs is enumerated completely in every run with
         "a(+/-)b == 10log10(10^(a/10)(+/-)10^(b/10)) dB for every bel/decibel-type unit, also with the right operand "
         "written with the other prefix (dBm + Bm); conversions of quantities that carry an uncertainty give the same "
         "value. Non-trivial: u != v, or "
+        "Round 4: q + q and (a + b) - a on levels. "
         "identity on an offset/logarithmic unit, with x not in {0,1}. Distinct = distinct case JSON.")
 ASSUMPTIONS = [
     "dBx<->dBy pairs the documentation does not promise (e.g. dBuA->dBA) are not demanded",
